@@ -16,7 +16,12 @@ def run_bfs(rep, exe, args, label, what, timeout=7200):
     for x in recs:
         t_ = x.get("t")
         if t_ == "internal": rep.internal_errors.append(x["what"])
-        elif t_ == "bfs": bfs = x
+        elif t_ == "bfs":
+            if bfs is None: bfs = x
+            else:
+                for k in ("states", "transitions", "unjudged", "violations"): bfs[k] = bfs.get(k, 0) + x.get(k, 0)
+                bfs["complete"] = bfs.get("complete", True) and x.get("complete", True)
+                bfs["states_by_depth"] = [a + b for a, b in zip(bfs.get("states_by_depth", []), x.get("states_by_depth", []))]
         elif t_ == "sample": rep.add_sample({k: v for k, v in x.items() if k != "t"})
         elif t_ == "viol":
             case = {k: v for k, v in x.items() if k not in ("t", "sig", "detail")}
